@@ -503,6 +503,15 @@ fn compile_like_cli(path: &std::path::Path, opt: u32) -> Result<Vec<u8>, String>
 
 fn hex(b: &[u8]) -> String { b.iter().map(|x| format!("{:02x}", x)).collect() }
 
+/// canonical form of a compile failure: the error code (`error[E0201]`) or the leading words;
+/// the rendered message is not part of the comparison (its "did you mean" hints list
+/// candidates in HashMap order, and the property is about the bytecode file)
+fn err_kind(msg: &str) -> String {
+    let line = msg.lines().find(|l| !l.trim().is_empty()).unwrap_or("").trim();
+    if let Some(i) = line.find(']') { return line[..=i].to_string(); }
+    line.chars().take_while(|c| c.is_ascii_alphabetic() || *c == ' ').take(32).collect::<String>().trim().to_string()
+}
+
 /// sources for the determinism run: the pipeline generator plus programs that import std
 /// modules in every form and user modules (so that the import tables, which are HashMaps,
 /// feed the compiler).
@@ -575,7 +584,7 @@ fn child_main() {
     let r = guarded(std::panic::AssertUnwindSafe(|| compile_like_cli(std::path::Path::new(&file), opt)));
     match r {
         Ok(Ok(b)) => println!("OK {}", hex(&b)),
-        Ok(Err(e)) => println!("ERR {}", hex(e.as_bytes())),
+        Ok(Err(e)) => println!("ERR {}", hex(err_kind(&e).as_bytes())),
         Err(p) => println!("PANIC {}", hex(p.as_bytes())),
     }
 }
@@ -607,7 +616,7 @@ fn det_main() {
             }).collect();
             // in-process, twice (same RandomState seeds differ per HashMap instance anyway)
             let a = guarded(std::panic::AssertUnwindSafe(|| compile_like_cli(path, opt)));
-            let inproc = match a { Ok(Ok(b)) => format!("OK {}", hex(&b)), Ok(Err(e)) => format!("ERR {}", hex(e.as_bytes())), Err(p) => format!("PANIC {}", hex(p.as_bytes())) };
+            let inproc = match a { Ok(Ok(b)) => format!("OK {}", hex(&b)), Ok(Err(e)) => format!("ERR {}", hex(err_kind(&e).as_bytes())), Err(p) => format!("PANIC {}", hex(p.as_bytes())) };
             let mut all = outs.clone();
             all.push(inproc);
             let first = &all[0];
